@@ -120,6 +120,35 @@ Proof.
   - apply IH.
 Qed.
 
+(* a conflict mark put by save_conflicts names the winner handed in; the others were there before *)
+Lemma save_conflicts_go_conflict win a b i w :
+  nth_error (save_conflicts_go win a b) i = Some (Conflict w) -> w = win \/ nth_error a i = Some (Conflict w).
+Proof.
+  revert b i. induction a as [|x a IH]; intros b i; cbn; [auto|].
+  destruct b as [|y b]; cbn; [auto|].
+  destruct i; cbn.
+  - destruct (present x && parsed y); intros H; [inversion H; auto|auto].
+  - apply IH.
+Qed.
+
+(* pick_winner: the index it reports is a position of both ledgers *)
+Lemma pick_winner_go_lt ix me other b w :
+  pick_winner_go ix me other = (b, Some w) -> ix <= w /\ w < ix + length me /\ w < ix + length other.
+Proof.
+  revert ix other. induction me as [|x me IH]; intros ix other; cbn; [discriminate|].
+  destruct other as [|y other]; [discriminate|].
+  destruct (xorb (parsed x) (parsed y)).
+  - intros H. inversion H; subst. cbn. repeat split; try apply Nat.le_refl; apply Nat.lt_add_pos_r; apply Nat.lt_0_succ.
+  - intros H. apply IH in H. cbn [length]. destruct H as (H1 & H2 & H3). repeat split.
+    + apply Nat.le_trans with (S ix); [apply Nat.le_succ_diag_r|exact H1].
+    + rewrite <- Nat.add_succ_comm. exact H2.
+    + rewrite <- Nat.add_succ_comm. exact H3.
+Qed.
+
+Lemma pick_winner_lt sa sb b w :
+  pick_winner sa sb = (b, Some w) -> w < length (ist sa) /\ w < length (ist sb).
+Proof. unfold pick_winner. intros H. apply pick_winner_go_lt in H. cbn in H. tauto. Qed.
+
 Lemma find_from_before f ix its sts e r :
   find_from f ix its sts e = Some r ->
   forall k a st, ix + k < r -> nth_error its k = Some a -> nth_error sts k = Some st ->
